@@ -30,6 +30,11 @@ def sh(cmd, cwd=None, timeout=3600, env=None):
 def main():
     args = [a for a in sys.argv[1:] if not a.startswith("--")]
     pid, mid = args[0], args[1]
+    chk_pid = pid
+    for i, a in enumerate(sys.argv):
+        if a == "--with":
+            chk_pid = sys.argv[i + 1]
+    args = [a for a in args if a != chk_pid or a == pid]
     tier = "quick"
     seeds = ["1"]
     for i, a in enumerate(sys.argv):
@@ -122,16 +127,16 @@ def main():
             assert rc == 0
             result["confirmed"] = bool(result["tests_pass_with_patch"] and result["demo_fails_with_patch"] and result["demo_passes_without"])
         # the check
-        if os.path.exists(os.path.join(ROOT, "props", pid, "check.py")):
+        if os.path.exists(os.path.join(ROOT, "props", chk_pid, "check.py")):
             det = []
             for seed in seeds:
                 env = dict(ENV, VERIF_REPO=wt, VERIF_EVIDENCE_DIR="/tmp/ev-%s-%s" % (pid, mid), VERIF_REPLAY_DIR="/tmp/rp-%s-%s" % (pid, mid),
                            VERIF_BUILD="/tmp/bd-%s-%s" % (pid, mid))
                 t = time.time()
-                rc, out = sh("./check %s --tier %s --seed %s" % (pid, tier, seed), cwd=ROOT, env=env, timeout=7200)
+                rc, out = sh("./check %s --tier %s --seed %s" % (chk_pid, tier, seed), cwd=ROOT, env=env, timeout=7200)
                 viol = [l for l in out.split("\n") if l.startswith("VIOLATION")]
                 det.append({"seed": seed, "tier": tier, "rc": rc, "violations": viol[:5], "wall_s": round(time.time() - t)})
-                result["ran"].append("VERIF_REPO=%s ./check %s --tier %s --seed %s -> rc %d, %d VIOLATION line(s)" % (wt, pid, tier, seed, rc, len(viol)))
+                result["ran"].append("VERIF_REPO=%s ./check %s --tier %s --seed %s -> rc %d, %d VIOLATION line(s)" % (wt, chk_pid, tier, seed, rc, len(viol)))
                 print("check seed %s: rc=%d %s" % (seed, rc, viol[:3]))
                 if rc not in (0, 1):
                     print(out[-2500:])
@@ -139,9 +144,13 @@ def main():
                     m = re.search(r"replay=(\S+)", v)
                     if m and os.path.exists(m.group(1)):
                         result["replay_excerpt"] = open(m.group(1)).read()[:1500]
-            result["check"] = det
-            result["detected"] = all(d["rc"] == 1 and d["violations"] for d in det)
-            result["detected_with_input"] = result["detected"] and all(not v.rstrip().endswith("no-failing-input-found") for d in det for v in d["violations"][:1])
+            if chk_pid != pid:
+                result["check_" + chk_pid] = det
+                result["detected_by_" + chk_pid] = all(d["rc"] == 1 and d["violations"] for d in det)
+            else:
+                result["check"] = det
+                result["detected"] = all(d["rc"] == 1 and d["violations"] for d in det)
+                result["detected_with_input"] = result["detected"] and all(not v.rstrip().endswith("no-failing-input-found") for d in det for v in d["violations"][:1])
             for d in ("ev", "rp", "bd"):
                 shutil.rmtree("/tmp/%s-%s-%s" % (d, pid, mid), ignore_errors=True)
         return finish(result, src, pid, mid, wt)
@@ -169,13 +178,16 @@ def finish(result, src, pid, mid, wt):
     old = {}
     if os.path.exists(dst + "/meta.json"):
         old = json.load(open(dst + "/meta.json"))
+    for k, v in old.items():
+        if k.startswith("check") or k.startswith("detected"):
+            result.setdefault(k, v)
     if "confirmed" not in result and "confirmed" in old:
         for k in ("confirmed", "tests_pass_with_patch", "demo_fails_with_patch", "demo_passes_without", "touched"):
             if k in old:
                 result.setdefault(k, old[k])
     result["author_meta"] = meta
     json.dump(result, open(dst + "/meta.json", "w"), indent=1)
-    print(json.dumps({k: result.get(k) for k in ("id", "confirmed", "detected", "detected_with_input")}))
+    print(json.dumps({k: result.get(k) for k in result if k in ("id", "confirmed", "detected", "detected_with_input") or k.startswith("detected_by_")}))
     return 0
 
 
